@@ -94,6 +94,13 @@ def evaluate(world, run):
         if any(o[0] in ("write", "open_trunc") and o[1] in ("$WS/sdk/src/lib.rs", "$WS/sdk/Cargo.toml")
                and ("sdk/" + o[1].split("/sdk/")[1]) in before for o in ex["project_write_ops"]):
             probe("sdk_file_rewritten")
+        if ex.get("par_seed") is not None:
+            probe("par_executions")
+            probe("par_scheduler_decisions", ex.get("par_decisions", 0))
+            if any(n >= 2 for n in ex.get("par_sections", [])):
+                probe("par_section_with_several_tasks")
+            if any(n >= 2 for n in ex.get("par_sections", [])) and ex["n_errors"] >= 1:
+                probe("par_error_diagnostics_next_to_parallel_indexing")
         if ex["cache_bytes_written"] > 50_000_000:
             probe("toolchain_crates_indexed_from_scratch")
         elif ex["cache_bytes_written"] > 500_000:
@@ -149,12 +156,19 @@ def evaluate(world, run):
                     elif rel not in before:
                         # C09 speaks of an SDK that was already on disk; a new file is only recorded
                         observe("failed_run_created_" + cls)
-            # 4. success writes the SDK
+            # 4. success writes the SDK — the SDK of THIS blueprint: exit 0 with another blueprint's (or a
+            # damaged) SDK left on disk has not "written the SDK"
             if code == 0 and sig is None:
                 for rel in SDK_FILES:
                     if rel not in after:
                         viol("C09", "success-writes-sdk", f"success-without-{file_class(rel)}", ex,
                              f"exit 0 but {rel} does not exist")
+                    elif (mode == "generate" and g is not None and g["exit"] == 0 and not expect_fail
+                          and _golden_sha(g, rel) is not None and _sha(after, rel) != _golden_sha(g, rel)
+                          and _sha(after, rel) == _sha(before, rel)):
+                        viol("C09", "success-writes-sdk", f"success-left-stale-{file_class(rel)}", ex,
+                             f"exit 0 but {rel} was left as it was before the run, which is not what generate({bp}) "
+                             f"writes in a clean world", {rel: _sha(after, rel)}, {rel: _golden_sha(g, rel)})
             # 5. verdict stability (reference = golden run: clean world, hash seed 0)
             # a peer process parked in the middle of its persist phase IN THE SAME PROJECT leaves the
             # workspace in a transient state (the SDK is a workspace member whose manifest is not written
